@@ -61,8 +61,9 @@ class Model(abc.ABC):
         if data.dtype.kind not in ('b', 'i', 'u', 'f', 'c'):
             raise ValueError(f'Model should take numerical ndarray as input data, not {data.dtype}).')
 
-        if axis == -1:
-            axis = len(data.shape) - 1
+        if not -data.ndim <= axis < data.ndim:
+            raise ValueError(f'axis {axis} is out of bounds for data with {data.ndim} dimensions.')
+        axis = axis % data.ndim
 
         results = self._compute(data, axis=axis)
 
